@@ -7,9 +7,9 @@
    All statements quantify over every value of model/Values.v: integers (all of Z), floats (NaN, +-Inf,
    every dyadic rational with -0 distinguished), booleans, nil, strings, arrays and maps of any nesting,
    errors, functions, quotes, macros, extensions, return values. *)
-From Coq Require Import List ZArith NArith Bool.
+From Coq Require Import List ZArith NArith Bool Sorted Permutation.
 From GrolModel Require Import Values Cmp.
-From GrolProofs Require Import Cmp_proofs.
+From GrolProofs Require Import Cmp_proofs Cmp_more.
 Import ListNotations.
 Local Open Scope Z_scope.
 
@@ -107,6 +107,40 @@ Example C12_ex_witnesses :
   /\ cmp_int_float_go (2 ^ 53 + 1) (FFin false (2 ^ 52) 1) = Gt.
 Proof. vm_compute. repeat split. Qed.
 
+(* sorting: the order can be sorted by - a comparison sort driven by Cmp ([vsort]: insertion by Cmp) returns a
+   permutation of its input that is sorted; and the sorted arrangement of a collection is UNIQUE up to
+   order-equivalence, position by position: any two sorted permutations of each other (the results of sorting the same
+   values given in two orders, or by two algorithms) are pairwise order-equivalent *)
+Theorem sorting_is_well_defined :
+  (forall l, Permutation l (vsort l) /\ StronglySorted vle (vsort l))
+  /\ (forall l1 l2, Permutation l1 l2 -> StronglySorted vle l1 -> StronglySorted vle l2 -> Forall2 veq l1 l2)
+  /\ (forall l l', Permutation l l' -> Forall2 veq (vsort l) (vsort l'))
+  /\ (forall l, StronglySorted vle l -> vsort l = l).
+Proof.
+  exact (conj (fun l => conj (vsort_perm l) (vsort_sorted l))
+        (conj sorted_unique (conj vsort_perm_equiv vsort_of_sorted))).
+Qed.
+
+(* min / max do not depend on the order in which their arguments are given (up to order-equivalence) *)
+Theorem min_max_order_independent : forall x l y l',
+  Permutation (x :: l) (y :: l') ->
+  (forall m m', vmin x l = Val m -> vmin y l' = Val m' -> veq m m')
+  /\ (forall m m', vmax x l = Val m -> vmax y l' = Val m' -> veq m m').
+Proof.
+  exact (fun x l y l' HP => conj (fun m m' => vmin_order_independent x l y l' m m' HP)
+                                 (fun m m' => vmax_order_independent x l y l' m m' HP)).
+Qed.
+
+Example C12_ex_sort :
+  let f1 := VFloat (FFin false 1 0) in
+  vsort [VStr [97%N]; VInt 3; f1; VNil; VInt 1; VFloat FNaN; VInt (-2)]
+  = [VFloat FNaN; VInt (-2); f1; VInt 1; VInt 3; VNil; VStr [97%N]]
+  /\ vsort [VInt 1; f1; VNil; VFloat FNaN; VInt (-2); VStr [97%N]; VInt 3]
+     = [VFloat FNaN; VInt (-2); VInt 1; f1; VInt 3; VNil; VStr [97%N]]   (* the same up to 1 ~ 1.0 *)
+  /\ vsort [f1; VInt 1] = [f1; VInt 1] /\ vsort [VInt 1; f1] = [VInt 1; f1]
+  /\ vmin (VInt 1) [f1] = Val (VInt 1) /\ vmin f1 [VInt 1] = Val f1.
+Proof. vm_compute. repeat split. Qed.
+
 Print Assumptions cmp_never_panics.
 Print Assumptions cmp_total_preorder.
 Print Assumptions cmp_antisym_equiv.
@@ -117,3 +151,5 @@ Print Assumptions equals_implies_cmp_eq.
 Print Assumptions min_max_extremal.
 Print Assumptions cmp_is_compare_of_images.
 Print Assumptions cmp_int_float_exact.
+Print Assumptions sorting_is_well_defined.
+Print Assumptions min_max_order_independent.
